@@ -30,30 +30,23 @@ def trigTol (value : Bool) (op : Op) (a b : Atom) : Bool :=
 /-- exact rational value of an xs:integer / xs:decimal atom -/
 def exactVal : Atom → Option Rat | .int v => some v | .dec q => some q | _ => none
 
-/-- rank used for promotion: in a general comparison an untypedAtomic operand facing a number is
-cast to xs:double -/
-def promRank (value : Bool) (a : Atom) : Option Nat :=
-  match a with
-  | .ua _ => if value then none else some 2
-  | _ => CmpSpec.numRank a
-
 /-- F07-promotion: the pair mixes numeric types and the promotion the specification asks for
-(`castNum` to the higher of decimal < float < double) is not the one the code performs: general
-comparison compares int with float (and with an untypedAtomic cast to double) exactly and Decimal
-with float as binary64; value comparison uses binary64 (`get_double`) also when the other operand
-is xs:float. -/
+(`castNum` to the higher of decimal < float < double) is not the one the code performs: an integer or
+decimal facing an xs:float is converted to binary64 (`get_double`), not binary32; and in a general
+comparison an untypedAtomic (cast to double) is compared *exactly* with an integer. -/
 def trigPromotion (value : Bool) (a b : Atom) : Bool :=
-  match promRank value a, promRank value b with
-  | some i, some j =>
-    if i = j then false else
-    let k := if i < j then j else i
-    let lo := if i < j then a else b
-    match exactVal lo with
-    | some q =>
-      if value then decide (CmpSpec.castNum k lo ≠ toD64 q)
-      else decide (CmpSpec.castNum k lo ≠ .fin q) || decide (toD64 q ≠ .fin q)
-    | none => false
-  | _, _ => false
+  match a, b with
+  | .ua _, .int v | .int v, .ua _ => !value && decide (toD64 (v : Rat) ≠ .fin v)
+  | _, _ =>
+    match CmpSpec.numRank a, CmpSpec.numRank b with
+    | some i, some j =>
+      if i = j then false else
+      let k := if i < j then j else i
+      let lo := if i < j then a else b
+      match exactVal lo with
+      | some q => decide (CmpSpec.castNum k lo ≠ toD64 q)
+      | none => false
+    | _, _ => false
 
 /-- the specification's comparability table says XPTY0004 for the types of this pair -/
 def specIncomparable (m : Mode) (op : Op) (a b : Atom) : Bool :=
@@ -61,21 +54,19 @@ def specIncomparable (m : Mode) (op : Op) (a b : Atom) : Bool :=
   | .error .XPTY0004 => true
   | _ => false
 
-def iterAccepts (a b : Atom) : Bool :=
-  match iterCheck a b with | .ok _ => true | .error _ => false
+def iterAccepts (op : Op) (a b : Atom) : Bool :=
+  match iterCheck op a b with | .ok _ => true | .error _ => false
 
 /-- F07-lenient: neither operand untyped, incomparable by the specification, not rejected by the
 isinstance tests of iter_comparison_data (the Python operator then answers, or raises TypeError) -/
 def trigLenient (m : Mode) (op : Op) (a b : Atom) : Bool :=
-  !isUA a && !isUA b && specIncomparable m op a b && iterAccepts a b
+  !isUA a && !isUA b && specIncomparable m op a b && iterAccepts op a b
 
 def isTemporal (a : Atom) : Bool := a.isDT || a.isDur
 
-/-- F07-untyped: (i) untypedAtomic against xs:float is clamped to the binary32 range by `Float.make`;
-(ii) an xs:anyURI left operand compares the raw untyped string (no white-space collapse) -/
+/-- F07-untyped: an xs:anyURI left operand compares the raw untyped string (no white-space collapse) -/
 def trigUntyped (_op : Op) (a b : Atom) : Bool :=
   match a, b with
-  | .ua _, .flt _ | .flt _, .ua _ => true
   | .uri _, .ua t => decide (strip t ≠ t)
   | _, _ => false
 
